@@ -23,7 +23,7 @@ pub struct Case {
     pub home: String,
 }
 
-const LITERALS: &[&str] = &["ab", "a\\ b", "\\*", "*", "?", "[ab]", "*.txt", ".", "-", "=", "x=y", "/", "dir/", "d*/c*", ".*", "[x]", "\\[x\\]", "sp*", "%", "nomatch*"];
+const LITERALS: &[&str] = &["ab", "a\\ b", "\\*", "*", "?", "[ab]", "*.txt", ".", "-", "=", "x=y", "/", "dir/", "d*/c*", ".d*/*", ".[a-z]*/?*", "d*/*", ".*", "[x]", "\\[x\\]", "sp*", "%", "nomatch*"];
 const SQUOTED: &[&str] = &["'a b'", "''", "'*'", "' '", "'$m'"];
 const DQUOTED: &[&str] = &["\"a b\"", "\"\"", "\"$m\"", "\"x$e\"", "\"$s\"", "\" \"", "\"*\"", "\"$g\"", "\"${u:-d e}\"", "\"$n\""];
 const PARAMS: &[&str] = &["$e", "$s", "$m", "$g", "$q", "$n", "$u", "${m}", "${s}", "$1", "$2", "$3", "${#m}", "$#"];
@@ -216,6 +216,10 @@ impl Layer for Diff {
             ("t/[x]".into(), "x".into()),
             ("t/dir/".into(), String::new()),
             ("t/dir/c.txt".into(), "x".into()),
+            ("t/dir/.c2".into(), "x".into()),
+            ("t/.dd/".into(), String::new()),
+            ("t/.dd/.h2".into(), "x".into()),
+            ("t/.dd/v".into(), "x".into()),
         ];
         let spec = CaseSpec { script: script(c), args: c.args.clone(), files, timeout_ms: 15_000, ..Default::default() };
         let (outcome, pair) = judge(&spec, &DiffCfg::default());
